@@ -655,11 +655,11 @@ def gen_case(rng):
         entry_addrs = [e.addr for e in code.live_entries()]
         c_entry_addrs = [e.addr for e in code.live_entries() if e.ctl == 'c']
         ignored = [i.addr for e in code.entries if e.ctl == 'i' for i in e.ins]
+        remote_addrs = [a for d in code.remote.values() for a in d]
         ignored_later = [i.addr for e in code.entries if e.ctl == 'i' for i in e.ins[1:]]
         # ignored entries of the other disassemblies (never declared by @remote: ignored entries have no page)
         other_ignored = [i.addr for oc in case.codes if oc is not code for e in oc.entries if e.ctl == 'i' for i in e.ins
                          if i.addr not in own and i.addr not in remote_addrs]
-        remote_addrs = [a for d in code.remote.values() for a in d]
         undeclared = [e.addr for oc in case.codes if oc is not code for e in oc.live_entries() if e.addr not in own and e.addr not in remote_addrs]
         label_n = 0
         for e in code.entries:
